@@ -2,7 +2,7 @@
    The theorems are about Scanner.Scan on the EXACT reader (3-slot ring, one-deep pushback re-reads of the opening
    quote, CR folding), started between tokens ([wf]: nothing pushed back). *)
 From InfluxQL Require Import Base.Prelude Lex.Token Lex.Reader Lex.Scanner Lex.Quote Proofs.ReaderProofs Proofs.QuoteProofs Proofs.BareIdentProofs.
-From InfluxQL Require Import Lex.StreamLex Proofs.StreamTile Proofs.BareConverse.
+From InfluxQL Require Import Lex.StreamLex Proofs.StreamTile Proofs.BareConverse Proofs.RingAt Proofs.QuoteAnywhere.
 
 (* for every expressible string (no NUL, no CR), QuoteString(s) followed by ANY text scans as one STRING token with
    value s, leaving exactly that text *)
@@ -51,6 +51,29 @@ Theorem C06_needs_quotes : forall ulower s rest, s <> [] -> ident_needs_quotes u
   s_scan ulower (s ++ rest) <> ((IDENT, s), rest).
 Proof. exact bare_needs_quotes. Qed.
 Print Assumptions C06_needs_quotes.
+
+(* "every position a quoted value can take in a statement": the theorems above start with nothing pushed back, which
+   inside a statement is the exception - a keyword, a name, a number or a blank in front of the value has read one
+   rune too many and pushed it back.  [at_ T r t] (C05_scan_is_stream_scan) is the general position: the exact
+   reader r, anywhere inside the CR-folded text T, with up to two runes pushed back, about to deliver t.  From every
+   such state a quoted string / quoted identifier that lies ahead scans as the one literal with value s and leaves the
+   reader in front of exactly the text that follows it. *)
+Theorem C06_string_anywhere : forall T ulower r s rest,
+  no_cr T -> at_ T r (quote_string s ++ rest) -> r_n r <= 2 -> expressible s ->
+  exists p r', scan ulower r = ((STRING, p, s), r') /\ at_ T r' rest.
+Proof. exact quote_string_anywhere. Qed.
+Print Assumptions C06_string_anywhere.
+
+Theorem C06_ident_anywhere : forall T ulower r s rest,
+  no_cr T -> at_ T r (34 :: flat_map qi_escape s ++ 34 :: rest) -> r_n r <= 2 -> expressible s ->
+  exists p r', scan ulower r = ((IDENT, p, s), r') /\ at_ T r' rest.
+Proof. exact quoted_ident_anywhere. Qed.
+Print Assumptions C06_ident_anywhere.
+
+(* the hypothesis on T is what the reader guarantees: a CR-folded text has no CR *)
+Theorem C06_folded_text_has_no_cr : forall src, no_cr (fold_cr src).
+Proof. exact fold_cr_no_cr. Qed.
+Print Assumptions C06_folded_text_has_no_cr.
 
 (* what does NOT hold of the faithful model, and of the code (known finding C06-word-absorbed): the text BEFORE a quoted
    identifier is not safe from it.  Scanner.scanIdent continues a bare word into a directly following double-quoted
